@@ -252,3 +252,36 @@ def planar_wrapper(ctx):
             argsets.append((meth, tuple(repr(t.key() if isinstance(t, PVec) else (t[0], t[1], str(t[2]))) for t in (w, u, b))))
         ctx.oblige(f"C01/Planar[{cname}]/post/all_methods_build_the_same_planar_bijection", len(argsets) == 4 and len({a_ for _m, a_ in argsets}) == 1, [], props, kind="struct", fn=f"{PQ}.get_planar",
                    note="how the parameter vector is laid out (weight / u / bias) is an implementation choice; it must be the same for transform and inverse")
+
+
+@family("planar/_UnconditionalPlanar[tanh]", ["C02", "C07", "C01", "C04"])
+def planar_tanh(ctx):
+    """tanh variant: y = x + u_hat tanh(w.x + b); log|det| = log|1 + (1 - tanh^2(z)) w.u_hat| (matrix determinant lemma, cited);
+    |w.u_hat| constraint: 1 + tanh'(z) w.u_hat > 0 because w.u_hat > -1 and 0 < tanh' <= 1 (invertibility); no closed-form inverse"""
+    it = ctx.new_interp()
+    install(it)
+    it.lib.overrides["jax.numpy.tanh"] = lambda v: SV(tanh(to_real(lift(v))))
+    cls = it.repo_class(Q)
+    props = ["C02", "C07", "C01", "C04"]
+    b = z3.Real("bias")
+    w, x = LV({"w": 1}), LV({"x": 1})
+    uh_s = LV({"uh": 1})
+    gwuh = gram("w", "uh")
+    o = Obj(cls, weight=w, _act_scale=LV({"u": 1}), bias=SV(b), negative_slope=None, activation="tanh", activation_fn=it.lib.resolve("jax.numpy.tanh"), shape=(SV(z3.Int("dim")),))
+    object.__getattribute__(o, "_fields")["get_act_scale"] = lambda: uh_s
+    z = gram("w", "x") + b
+    rp = dict(kind="simple", cls="Planar(tanh)", vars={})
+    pt = single(it.explore(lambda: method(cls, "transform")(o, x, None)), ctx, "C07/_UnconditionalPlanar[tanh].transform/struct/straight_line", props, Q + ".transform")
+    ptl = single(it.explore(lambda: method(cls, "transform_and_log_det")(o, x, None)), ctx, "C02/_UnconditionalPlanar[tanh].transform_and_log_det/struct/straight_line", props, Q + ".transform_and_log_det")
+    if pt is None or ptl is None:
+        return
+    ctx.oblige("C07/_UnconditionalPlanar[tanh].transform/post/fwd", vec_eq(pt.value, x + uh_s * SV(tanh(z))), pt.cond, props, fn=Q + ".transform", replay=rp)
+    yv, ld = ptl.value
+    ctx.oblige("C01/_UnconditionalPlanar[tanh]/same_fwd", vec_eq(yv, pt.value), ptl.cond + pt.cond, props, fn=Q + ".transform_and_log_det", replay=rp)
+    dact = 1 - tanh(z) * tanh(z)
+    ctx.oblige("C02/_UnconditionalPlanar[tanh]/ldspec_fwd", lift(ld) == log(absr(1 + dact * gwuh)), ptl.cond, props, fn=Q + ".transform_and_log_det", replay=rp,
+               note="det(I + u_hat psi^T) = 1 + psi.u_hat with psi = tanh'(z) w (matrix determinant lemma, cited)")
+    # the argument of the log is positive for the constrained u_hat (w.u_hat > -1): finite log-det, orientation preserved
+    t = z3.Real("tanh_z")
+    ctx.oblige("C04/_UnconditionalPlanar[tanh]/lemma/jacobian_factor_positive", 1 + (1 - t * t) * gwuh > 0, [gwuh > -1, t > -1, t < 1], props, kind="lemma", fn=Q + ".transform_and_log_det",
+               cases=[("wu_nonneg", gwuh >= 0), ("wu_neg", gwuh < 0)])
